@@ -655,15 +655,35 @@ Fixpoint eval_expr (env : genv) (e : expr) : option value :=
       | Some a, Some b => eval_binop op lt rt a b
       | _, _ => None
       end
+  | EIndex l i =>                               (* a[i] on strings (by code point) and arrays; errors are undefined *)
+      match eval_expr env l, eval_expr env i with
+      | Some a, Some b => match index_value a b with POk v => Some v | _ => None end
+      | _, _ => None
+      end
+  | EArr l => option_map VArr (eval_list env l)  (* [e1 e2 …] *)
   | _ => None
+  end
+with eval_list (env : genv) (l : elist) : option (list value) :=
+  match l with
+  | ENil => Some []
+  | ECons e t => match eval_expr env e, eval_list env t with
+                 | Some v, Some vs => Some (v :: vs)
+                 | _, _ => None
+                 end
   end.
 
 (* the most stack slots the code of e needs above its starting height *)
 Fixpoint edepth (e : expr) : N :=
   match e with
   | EGroup e1 | EUn _ e1 => edepth e1
-  | EBin _ _ _ l r => N.max (edepth l) (1 + edepth r)
+  | EBin _ _ _ l r | EIndex l r => N.max (edepth l) (1 + edepth r)
+  | EArr l => N.max 1 (edepth_list l)
   | _ => 1
+  end
+with edepth_list (l : elist) : N :=
+  match l with
+  | ENil => 0
+  | ECons e t => N.max (edepth e) (1 + edepth_list t)
   end.
 
 (* n loop iterations of Run *)
